@@ -35,7 +35,8 @@ func (c *varintCodec) DataType() datatype.DataType {
 func (c *varintCodec) Encode(source interface{}, version primitive.ProtocolVersion) (dest []byte, err error) {
 	var val *big.Int
 	if val, err = convertToBigInt(source); err == nil && val != nil {
-		dest = val.Bytes()
+		// two's-complement encoding; big.Int.Bytes() would drop the sign and turn zero into NULL
+		dest = writeBigInt(val)
 	}
 	if err != nil {
 		err = errCannotEncode(source, c.DataType(), version, err)
